@@ -177,6 +177,13 @@ func (c C16Case) build(withFault bool) cli.Tree {
 		case "test-file-absent":
 			delete(t, "tests/regression/tests/R/932100.yaml")
 			t["tests/regression/tests/R/932101.yaml"] = "---\ntests:\n  - test_id: 5\n"
+			// a file named after the rule that is no test file
+			switch c.Variant % 4 {
+			case 1:
+				t["tests/regression/tests/R/932100.txt"] = "  - test_id: 5\n"
+			case 3:
+				t["tests/regression/tests/R/932100.yaml.disabled"] = "  - test_id: 5\n"
+			}
 		case "test-file-ambiguous":
 			t["tests/regression/tests/S/932100.yaml"] = "---\ntests:\n  - test_id: 7\n"
 		}
@@ -291,6 +298,10 @@ func (c C16Case) build(withFault bool) cli.Tree {
 		case "no-rules-file":
 			delete(t, name)
 			t["rules/"] = ""
+			if c.Variant%2 == 1 {
+				// what is left is a backup of the rules file, not a rules file
+				t[name+".bak"] = rules("", false, false)
+			}
 		case "two-rules-files":
 			t["rules/REQUEST-932-APPLICATION-ATTACK-OTHER.conf"] = "# second file with the same prefix\n"
 		}
